@@ -1,6 +1,6 @@
 (* glue lemmas that need both the C01 specification lemmas and the registry invariant *)
 From Coq Require Import ZArith List Bool Arith Lia.
-From Acme.C01 Require Import Layout State Model ProofsLayout ProofsInv ProofsSpec ProofsFrame.
+From Acme.C01 Require Import Layout State Model ProofsLayout ProofsInv ProofsSpec ProofsFrame ProofsAccept.
 From Acme.C07 Require Import Proofs ProofsReg.
 Open Scope Z_scope.
 
@@ -12,3 +12,54 @@ Proof. intros s m x old n HA H R K Hn Hin. apply set_type_accepted_iff; try assu
 Lemma frame_positions_f : forall s o y, InvA s -> InvM s -> InvR s -> ok_op_f s o ->
   rel (fst (step s o)) y <> rel s y -> may_move s o y.
 Proof. intros s o y HA H R Hf. apply frame_positions_partial; [exact HA|]. apply ok_op_of_f; assumption. Qed.
+
+(* --- T2 for the size-changing operations, under the invariants and the final hypotheses ----------- *)
+
+Lemma set_type_accepted_iff_f : forall s x old n, InvA s -> InvM s -> InvR s ->
+  kind s x = KStd old -> 1 <= n -> single_moved s (rel s) x (n - old) ->
+  (ProofsSpec.is_ok (snd (step_set_type s x n)) <-> change_fits s (rel s) x (n - old)).
+Proof.
+  intros s x old n HA H R K Hn Hs. apply set_type_accepted_iff_all; try assumption.
+  split; [apply link_ok_of_inv; assumption|exact Hs].
+Qed.
+
+Lemma set_enum_accepted_iff_f : forall s x e old, InvA s -> InvM s -> InvR s ->
+  kind s x = KEnum old -> single_moved s (rel s) x (esize s e - sz s x) ->
+  (ProofsSpec.is_ok (snd (step_set_enum s x e)) <-> change_fits s (rel s) x (esize s e - sz s x)).
+Proof.
+  intros s x e old HA H R K Hs. apply (set_enum_accepted_iff s x e old); try assumption.
+  split; [apply link_ok_of_inv; assumption|exact Hs].
+Qed.
+
+Lemma add_value_accepted_iff_f : forall s e idx, InvA s -> InvM s -> InvR s -> ok_op_f s (OAddValue e idx) ->
+  (ProofsSpec.is_ok (snd (step_add_value s e idx)) <->
+   ~ In idx (eidx s e) /\ (emax s e < idx -> enum_change_fits s e (esize_of (emin s e) idx - esize s e))).
+Proof. intros s e idx HA H R Hf. apply add_value_accepted_iff; [exact HA|]. apply ok_op_of_f; assumption. Qed.
+
+Lemma update_index_accepted_iff_f : forall s v idx, InvA s -> InvM s -> InvR s -> ok_op_f s (OUpdateIndex v idx) ->
+  (ProofsSpec.is_ok (snd (step_update_index s v idx)) <->
+   vidx s v = idx \/ vpar s v = None
+   \/ exists e, vpar s v = Some e /\ ~ In idx (eidx s e)
+                /\ (emax s e < idx -> enum_change_fits s e (esize_of (emin s e) idx - esize s e))).
+Proof. intros s v idx HA H R Hf. apply update_index_accepted_iff; [exact HA|]. apply ok_op_of_f; assumption. Qed.
+
+Lemma mux_ids_nonempty : forall s u x, InvM s -> ugids s u x <> Some nil.
+Proof. intros s u x H E. destruct (m_ids s H u x nil E) as (_ & _ & C & _). congruence. Qed.
+
+Lemma mux_shift_left_spec_f : forall s u x a, InvA s -> InvM s ->
+  exists d, snd (step_mux_shift true s u x a) = RShift d
+    /\ d = rel s x - rel (fst (step_mux_shift true s u x a)) x
+    /\ (forall y, y <> x -> rel (fst (step_mux_shift true s u x a)) y = rel s y)
+    /\ (forall g, mux_moves s u x a g ->
+          rel (fst (step_mux_shift true s u x a)) x = left_target s (gget s u (Z.to_nat g)) x a /\ 0 <= d <= a)
+    /\ ((forall g, ~ mux_moves s u x a g) -> d = 0).
+Proof. intros s u x a HA H. apply mux_shift_left_spec; [exact HA|apply mux_ids_nonempty; exact H]. Qed.
+
+Lemma mux_shift_right_spec_f : forall s u x a, InvA s -> InvM s ->
+  exists d, snd (step_mux_shift false s u x a) = RShift d
+    /\ d = rel (fst (step_mux_shift false s u x a)) x - rel s x
+    /\ (forall y, y <> x -> rel (fst (step_mux_shift false s u x a)) y = rel s y)
+    /\ (forall g, mux_moves s u x a g ->
+          rel (fst (step_mux_shift false s u x a)) x = right_target s (mux_gsize s u) (gget s u (Z.to_nat g)) x a /\ 0 <= d <= a)
+    /\ ((forall g, ~ mux_moves s u x a g) -> d = 0).
+Proof. intros s u x a HA H. apply mux_shift_right_spec; [exact HA|apply mux_ids_nonempty; exact H]. Qed.
